@@ -1,6 +1,7 @@
 package main
 
 import (
+	"regexp"
 	"bytes"
 	"context"
 	"crypto/sha256"
@@ -56,6 +57,31 @@ func cleanupScratch() {
 	if tmpDir != "" {
 		os.RemoveAll(tmpDir)
 	}
+}
+
+var nlRe = regexp.MustCompile(`\(\* [^0-9( ][^ )]* [^0-9( ]|\(\* \([^*]*\) [^0-9 ]|\(\* [^0-9( ][^ )]* \(`)
+
+// isNonlinear: the assertion multiplies two non-literal terms
+func isNonlinear(line string) bool {
+	return strings.Contains(line, "(* ") && nlRe.MatchString(line)
+}
+
+// smtLinear is smt() without assumptions that contain nonlinear products (a weaker context: a proof found
+// there is a proof in the full context)
+func (o *Obl) smtLinear(formula string) (string, bool) {
+	full := o.smt(formula, false)
+	var sb strings.Builder
+	dropped := false
+	lines := strings.Split(full, "\n")
+	for i, l := range lines {
+		if i < len(lines)-3 && strings.HasPrefix(l, "(assert ") && isNonlinear(l) {
+			dropped = true
+			continue
+		}
+		sb.WriteString(l)
+		sb.WriteByte('\n')
+	}
+	return sb.String(), dropped
 }
 
 func (o *Obl) smt(formula string, wantModel bool) string {
@@ -167,6 +193,9 @@ func race(text string, timeoutS int, tag string, which []int) (status, solver, o
 		if r.status != "error" || last.status == "" {
 			last = r
 		}
+	}
+	if last.status == "error" {
+		fmt.Fprintf(os.Stderr, "solver error on %s: %s\n", tag, firstLines(last.out, 3))
 	}
 	return last.status, last.solver, last.out, last.ms
 }
@@ -287,6 +316,13 @@ func discharge(o *Obl, timeoutS int) *SolveResult {
 	if st == "sat" {
 		// confirm with the race (a second opinion is cheap) but keep the model
 		return &SolveResult{Status: "refuted", Solver: solvers[0].name, Ms: time.Since(t0).Milliseconds(), Model: out, Rung: "whole", Pieces: 1}
+	}
+	// rung 0b: the same obligation without nonlinear assumptions (weaker context, sound for proving);
+	// irrelevant products of sizes otherwise send the arithmetic solvers into nlsat
+	if lin, dropped := o.smtLinear(o.Formula); dropped && !isNonlinear(o.Formula) {
+		if st2, sv2, _, _ := race(lin, minInt(timeoutS, 5), o.Name+".lin", []int{0, 1}); st2 == "unsat" {
+			return &SolveResult{Status: "proved", Solver: sv2, Ms: time.Since(t0).Milliseconds(), Rung: "whole-linear", Pieces: 1}
+		}
 	}
 	// rung 1: race all solvers on the whole obligation
 	st, sv, out, _ := race(text, timeoutS, o.Name, []int{1, 2, 0})
